@@ -8,7 +8,12 @@
    ops: 1 upd [g; item; coupon]   2 cpn [g; coupon]   3 dump [g; t]   4 est [g; t]
         5 bounds [g; t]           6 raw [g; t]        7 ser [g; t] -> the image bytes
         8 rt [g; t]   sketch := deserialize(serialize(sketch))
-        9 deser [g; t; bytes...]  sketch := deserialize(bytes) -> [1] | ERR *)
+        9 deser [g; t; bytes...]  sketch := deserialize(bytes) -> [1] | ERR
+        30 merge [g; t]  dump of u.to_sketch(Hll8) where u = HllUnion::new(lg_k of the sketch); u.update(&sketch)
+        31 reser [g; t]  [exact; modaux; has_aux]: serialize(deserialize(serialize(sk))) = serialize(sk) byte for
+                         byte / up to the order of the Hll4 exception list; has_aux = the image lists exceptions
+        32 qry [g; t]    estimate and the six bounds, crate only (the composite estimator of out-of-order
+                         sketches is not modelled): the model answers [] *)
 From DS Require Import Base.Prelude Base.FloatBits Base.HllSort Model.Hll Model.HllUnion Model.HllCodec Spec.HllLayout.
 From Coq Require Import Floats FMapPositive.
 Open Scope Z_scope.
@@ -68,6 +73,30 @@ Definition bounds (s : hsketch) : list Z :=
   [fb (hll_lower_bound s 1); fb (hll_lower_bound s 2); fb (hll_lower_bound s 3);
    fb (hll_upper_bound s 1); fb (hll_upper_bound s 2); fb (hll_upper_bound s 3)].
 
+(* an image up to the order of the Hll4 exception list (its order is the iteration order of the aux
+   hash table, which a rebuilt table need not share) *)
+Fixpoint u32_vals (l : list N) : list N :=
+  match l with
+  | a :: b :: c :: d :: r => (a + 256 * b + 65536 * c + 16777216 * d)%N :: u32_vals r
+  | _ => []
+  end.
+Definition image_is_hll4 (bs : list N) : bool :=
+  let b7 := nth 7 bs 0%N in
+  (40 <=? length bs)%nat && (N.land b7 3 =? 2)%N && (N.land (N.shiftr b7 2) 3 =? 0)%N.
+Definition norm_image (bs : list N) : list N :=
+  if image_is_hll4 bs && (nth 3 bs 0 <=? 21)%N then          (* lg_k is read from the image: bounded first *)
+    let half := (2 ^ (nth 3 bs 0 - 1))%N in
+    let n := (40 + N.to_nat half)%nat in
+    firstn n bs ++ sortN (u32_vals (skipn n bs))
+  else bs.
+Definition image_aux_count (bs : list N) : N :=
+  if image_is_hll4 bs then le_val (firstn 4 (skipn 36 bs)) else 0%N.
+
+(* [exact; modaux; has_aux] for an image and the image of its deserialized copy *)
+Definition reser_obs (img img' : list N) : list Z :=
+  [zbool (list_eqb N.eqb img' img); zbool (list_eqb N.eqb (norm_image img') (norm_image img));
+   zbool (negb (image_aux_count img =? 0)%N)].
+
 Definition slots := list (option hsketch).
 Definition get_sk (st : slots) (i : Z) : option hsketch := nth (Z.to_nat i) st None.
 
@@ -106,6 +135,19 @@ Definition step (st : slots) (o : zop) : slots * list Z :=
          | Ok s' => (set_nth (Z.to_nat idx) (Some s') st, [1])
          | Err => (st, ERR)
          | Stuck => (st, PANIC) end
+  | 30 => match get_sk st idx with
+          | Some s => match obind (union_new (sk_lgk s)) (fun u => obind (union_update u s) (fun u' => union_to_sketch u' T8)) with
+                      | Ok r => (st, dump r)
+                      | _ => (st, PANIC) end
+          | None => (st, PANIC) end
+  | 31 => match get_sk st idx with
+          | Some s => let img := hll_serialize s in
+                      match hll_deserialize img with
+                      | Ok s' => (st, reser_obs img (hll_serialize s'))
+                      | Err => (st, ERR)
+                      | Stuck => (st, PANIC) end
+          | None => (st, PANIC) end
+  | 32 => (st, [])
   | _ => (st, PANIC)
   end.
 
@@ -161,13 +203,23 @@ Fixpoint regs_match (o : ogroup) (j : N) (vs : list Z) : bool :=
   | v :: r => (Nz (og_reg o j) =? v) && regs_match o (j + 1) r
   end.
 
+(* the register values of an array-mode dump; None unless the observation IS an array-mode dump with
+   a plausible exception count.  Every quantity taken from an OBSERVATION is bounded before it drives
+   a recursion (Z.to_nat of a coupon or of a float bit pattern would never return): an out-of-range
+   observation is an oracle failure, reported at once. *)
+Definition dump_regs (ob : list Z) : option (list Z) :=
+  let naux := nth 9 ob (-1) in
+  if (nth 0 ob (-1) =? 2) && (0 <=? naux) && (naux <=? 2097152)
+  then Some (skipn (10 + 2 * Z.to_nat naux) ob) else None.
+
 Definition dump_ok (lgk : N) (o : ogroup) (t : Z) (ob : list Z) : bool :=
   let m := nth 0 ob (-1) in
   (m =? spec_mode_code lgk (og_d o)) && (nth 1 ob (-1) =? Nz lgk) && (nth 2 ob (-1) =? t) &&
   if m =? 2 then
-    let naux := nth 9 ob 0 in
-    let vs := skipn (10 + 2 * Z.to_nat naux) ob in
-    (Z.of_nat (length vs) =? 2 ^ Nz lgk) && regs_match o 0 vs
+    match dump_regs ob with
+    | Some vs => (Z.of_nat (length vs) =? 2 ^ Nz lgk) && regs_match o 0 vs
+    | None => false
+    end
   else
     let cs := skipn 5 ob in
     (Z.of_nat (length cs) =? Nz (og_d o)) && strictly_increasing cs && forallb (fun c => og_mem o (zN c)) cs &&
@@ -182,23 +234,31 @@ Definition og_push (o : ogroup) (code t : Z) (ob : list Z) : ogroup :=
   mkOg (og_set o) (og_d o) (og_regs o) (og_n o)
        ((code, og_n o, t, ob) :: filter (fun q => let '(_, n, _, _) := q in (n =? og_n o)%N) (og_q o)).
 
-Fixpoint prop_from (lgk : N) (g0 g1 : ogroup) (ops : list zop) (obs : list (list Z)) : bool :=
+(* a group becomes None when one of its sketches was replaced by an arbitrary image (op 9): there is
+   no Spec state to compare with any more, but the rest of the case is still judged (panics; the
+   other group) *)
+Fixpoint prop_from (lgk : N) (g0 g1 : option ogroup) (ops : list zop) (obs : list (list Z)) : bool :=
   match ops, obs with
+  | [], [] => true
   | (code, a) :: r, ob :: obr =>
       if list_eqb Z.eqb ob PANIC then false      (* no valid update history may panic *)
       else
       let g := nth 0 a 0 in
-      let o := if g =? 0 then g0 else g1 in
-      let continue (o' : ogroup) := if g =? 0 then prop_from lgk o' g1 r obr else prop_from lgk g0 o' r obr in
-      match code with
-      | 1 => continue (og_add lgk o (zN (nth 2 a 0)))
-      | 2 => continue (og_add lgk o (zN (nth 1 a 0)))
-      | 3 => dump_ok lgk o (nth 1 a 0) ob && continue o
-      | 4 | 5 => query_ok o code (nth 1 a 0) ob && continue (og_push o code (nth 1 a 0) ob)
-      | 9 => true            (* the sketch was replaced by an arbitrary image: no Spec state to compare with *)
-      | _ => continue o
+      let continue (o' : option ogroup) := if g =? 0 then prop_from lgk o' g1 r obr else prop_from lgk g0 o' r obr in
+      match (if g =? 0 then g0 else g1) with
+      | None => continue None
+      | Some o =>
+          match code with
+          | 1 => continue (Some (og_add lgk o (zN (nth 2 a 0))))
+          | 2 => continue (Some (og_add lgk o (zN (nth 1 a 0))))
+          | 3 => dump_ok lgk o (nth 1 a 0) ob && continue (Some o)
+          | 4 | 5 => query_ok o code (nth 1 a 0) ob && continue (Some (og_push o code (nth 1 a 0) ob))
+          | 8 => (match ob with [] => true | _ => false end) && continue (Some o)   (* its own image must be accepted *)
+          | 9 => continue None
+          | _ => continue (Some o)
+          end
       end
-  | _, _ => true
+  | _, _ => false
   end.
 
 Definition is_union_case (cfg : list Z) : bool := nth 1 cfg 0 =? 1.
@@ -208,7 +268,7 @@ Fixpoint NoDup_b (l : list Z) : bool :=
 
 Definition prop_ok (c : case) : bool :=
   if is_union_case (c_cfg c) then true
-  else prop_from (zN (nth 0 (c_cfg c) 0)) og_empty og_empty (c_ops c) (c_obs c).
+  else prop_from (zN (nth 0 (c_cfg c) 0)) (Some og_empty) (Some og_empty) (c_ops c) (c_obs c).
 
 (* ================= union cases (C03): cfg = [lg_max_k; 1] =================
    A table of source sketches (slots 0..7) and one HllUnion.
@@ -223,7 +283,9 @@ Definition prop_ok (c : case) : bool :=
         18 tosk [t]              state of union.to_sketch(t)
         19 est [t]               estimate and six bounds of union.to_sketch(t) (crate only)
         20 uinfo []              [lg_config_k; lg_max_k; is_empty] of the union
-        21 uest []               estimate and six bounds of the union itself (crate only) *)
+        21 uest []               estimate and six bounds of the union itself (crate only)
+        22 tosk_rt [t]           r = union.to_sketch(t); r' = deserialize(serialize(r));
+                                 [exact; modaux; has_aux] (see op 31) ++ state of r' *)
 Record ustate := mkUs { us_slots : slots; us_union : option hunion }.
 
 Definition mark_ooo (s : hsketch) : hsketch :=
@@ -242,7 +304,7 @@ Definition ustep (st : ustate) (o : zop) : ustate * list Z :=
     | Some s => match f s with
                 | Ok s' => (mkUs (set_nth (Z.to_nat i) (Some s') (us_slots st)) (us_union st), [])
                 | _ => (st, PANIC) end
-    | None => (st, PANIC)
+    | None => (st, [-996])        (* a slot never created (only a shrunk case names one): no-op, answers [-996] *)
     end in
   let with_union (f : hunion -> outcome hunion) : ustate * list Z :=
     match us_union st with
@@ -258,14 +320,23 @@ Definition ustep (st : ustate) (o : zop) : ustate * list Z :=
   | 13 => with_slot (fun s => Ok (mark_ooo s))
   | 14 => match get_sk (us_slots st) i with
           | Some s => with_union (fun u => union_update u s)
-          | None => (st, PANIC) end
+          | None => (st, [-996]) end
   | 15 => with_union (fun u => union_update_value u (zN (nth 1 a 0)))
   | 16 => with_union union_reset
-  | 17 => match get_sk (us_slots st) i with Some s => (st, dump s) | None => (st, PANIC) end
+  | 17 => match get_sk (us_slots st) i with Some s => (st, dump s) | None => (st, [-996]) end
   | 18 => match us_union st with
           | Some u => match union_to_sketch u (tgt_of (nth 0 a 0)) with Ok s => (st, dump s) | _ => (st, PANIC) end
           | None => (st, PANIC) end
   | 19 | 21 => (st, [])
+  | 22 => match us_union st with
+          | Some u => match union_to_sketch u (tgt_of (nth 0 a 0)) with
+                      | Ok r => let img := hll_serialize r in
+                                match hll_deserialize img with
+                                | Ok r' => (st, reser_obs img (hll_serialize r') ++ dump r')
+                                | Err => (st, ERR)
+                                | Stuck => (st, PANIC) end
+                      | _ => (st, PANIC) end
+          | None => (st, PANIC) end
   | 20 => match us_union st with
           | Some u => (st, [Nz (sk_lgk (un_gadget u)); Nz (un_lg_max u); zbool (sketch_is_empty (un_gadget u))])
           | None => (st, PANIC) end
@@ -338,10 +409,11 @@ Definition tosk_ok (lg_max : N) (u : ounion) (t : Z) (ob : list Z) : bool :=
   let m := nth 0 ob (-1) in
   if ou_is_array lg_max u then
     let lg := ou_lg u in
-    let naux := nth 9 ob 0 in
-    let vs := skipn (10 + 2 * Z.to_nat naux) ob in
-    (m =? 2) && (nth 1 ob (-1) =? Nz lg) && (nth 2 ob (-1) =? t) &&
-    (Z.of_nat (length vs) =? 2 ^ Nz lg) && regs_match_pm (regs_of lg (pm_keys (ou_set u))) 0 vs
+    match dump_regs ob with
+    | Some vs => (m =? 2) && (nth 1 ob (-1) =? Nz lg) && (nth 2 ob (-1) =? t) &&
+                 (Z.of_nat (length vs) =? 2 ^ Nz lg) && regs_match_pm (regs_of lg (pm_keys (ou_set u))) 0 vs
+    | None => false          (* not an array-mode dump *)
+    end
   else
     let cs := skipn 5 ob in
     (m =? spec_mode_code lg_max (ou_d u)) && (nth 1 ob (-1) =? Nz lg_max) && (nth 2 ob (-1) =? t) &&
@@ -362,12 +434,18 @@ Definition oslot_dump_ok (o : oslot) (ob : list Z) : bool :=
   let m := nth 0 ob (-1) in
   (m =? spec_mode_code (os_lgk o) (os_d o)) && (nth 1 ob (-1) =? Nz (os_lgk o)) &&
   if m =? 2 then
-    let naux := nth 9 ob 0 in
-    let vs := skipn (10 + 2 * Z.to_nat naux) ob in
-    (Z.of_nat (length vs) =? 2 ^ Nz (os_lgk o)) && regs_match_pm (regs_of (os_lgk o) (pm_keys (os_set o))) 0 vs
+    match dump_regs ob with
+    | Some vs => (Z.of_nat (length vs) =? 2 ^ Nz (os_lgk o)) && regs_match_pm (regs_of (os_lgk o) (pm_keys (os_set o))) 0 vs
+    | None => false
+    end
   else
     let cs := skipn 5 ob in
     (Z.of_nat (length cs) =? Nz (os_d o)) && strictly_increasing cs && forallb (fun c => pm_mem (os_set o) (zN c)) cs.
+
+(* the deserialized copy of an image re-serializes to the same bytes: up to the order of the Hll4
+   exception list always, byte for byte when the image lists no exceptions *)
+Definition reser_flags_ok (ob : list Z) : bool :=
+  (nth 1 ob 0 =? 1) && ((nth 2 ob 1 =? 1) || (nth 0 ob 0 =? 1)) && (3 <=? Z.of_nat (length ob)).
 
 Definition oget (sl : list (option oslot)) (i : Z) : option oslot := nth (Z.to_nat i) sl None.
 
@@ -382,18 +460,21 @@ Fixpoint union_from (lg_max : N) (sl : list (option oslot)) (u : ounion) (ops : 
       | 11 | 12 =>
           match oget sl i with
           | Some o => union_from lg_max (set_nth (Z.to_nat i) (Some (os_add o (zN (nth (if code =? 11 then 1%nat else 2%nat) a 0)))) sl) u r obr
-          | None => false end
-      | 14 => match oget sl i with Some o => union_from lg_max sl (ou_merge u o) r obr | None => false end
+          | None => union_from lg_max sl u r obr end      (* slot never created: a no-op on both sides, no claim *)
+      | 14 => match oget sl i with Some o => union_from lg_max sl (ou_merge u o) r obr | None => union_from lg_max sl u r obr end
       | 15 => union_from lg_max sl (ou_add u (zN (nth 1 a 0))) r obr
       | 16 => union_from lg_max sl (mkOu (PositiveMap.empty unit) 0 false lg_max None) r obr
-      | 17 => match oget sl i with Some o => oslot_dump_ok o ob && union_from lg_max sl u r obr | None => false end
+      | 17 => match oget sl i with Some o => oslot_dump_ok o ob && union_from lg_max sl u r obr | None => union_from lg_max sl u r obr end
       | 18 => tosk_ok lg_max u (nth 0 a 0) ob && union_from lg_max sl u r obr
       | 19 | 21 => est_ok u ob && union_from lg_max sl (ou_set_est u ob) r obr
       | 20 => (nth 0 ob (-1) =? Nz (if ou_is_array lg_max u then ou_lg u else lg_max)) && (nth 1 ob (-1) =? Nz lg_max) &&
               (nth 2 ob (-1) =? zbool (ou_d u =? 0)%N) && union_from lg_max sl u r obr
-      | _ => union_from lg_max sl u r obr
+      | 22 => reser_flags_ok ob && tosk_ok lg_max u (nth 0 a 0) (skipn 3 ob) && union_from lg_max sl u r obr
+      | 13 => (match oget sl i, ob with Some _, [] => true | None, _ => true | _, _ => false end) && union_from lg_max sl u r obr
+      | _ => false
       end
-  | _, _ => true
+  | [], [] => true
+  | _, _ => false
   end.
 
 Definition union_ok (c : case) : bool :=
@@ -405,14 +486,16 @@ Definition union_ok (c : case) : bool :=
 (* ================= codec oracles (C11 / C12 / C13 / C14 / C18 parts) ================= *)
 (* C11 twin: group 0 and group 1 are fed the same stream in the same order; group 0 is forked
    through serialize/deserialize (op 8) at arbitrary points.  Observations (dump, estimate, bounds,
-   image bytes of images without aux entries) taken at the same stream position by the same type
-   must be identical across the two groups. *)
-Definition image_has_aux (ob : list Z) : bool :=
-  (nth 7 ob 0 mod 4 =? 2) && ((nth 7 ob 0 / 4) mod 4 =? 0) &&
-  negb ((nth 36 ob 0 =? 0) && (nth 37 ob 0 =? 0) && (nth 38 ob 0 =? 0) && (nth 39 ob 0 =? 0)).
+   the image bytes up to the order of the Hll4 exception list, the merge of the sketch into a fresh
+   union) taken at the same stream position by the same type must be identical across the two
+   groups; every round trip must succeed (op 8: no ERR) and every re-serialization must reproduce
+   the image (op 31). *)
+Definition norm_obs (code : Z) (ob : list Z) : list Z :=
+  if code =? 7 then map Nz (norm_image (map zN ob)) else ob.
 
 Fixpoint twin_from (n0 n1 : N) (seen : list (Z * N * Z * Z * list Z)) (ops : list zop) (obs : list (list Z)) : bool :=
   match ops, obs with
+  | [], [] => true
   | (code, a) :: r, ob :: obr =>
       if list_eqb Z.eqb ob PANIC then false else
       let g := nth 0 a 0 in
@@ -420,16 +503,18 @@ Fixpoint twin_from (n0 n1 : N) (seen : list (Z * N * Z * Z * list Z)) (ops : lis
       let n := if g =? 0 then n0 else n1 in
       match code with
       | 1 | 2 => if g =? 0 then twin_from (n0 + 1) n1 seen r obr else twin_from n0 (n1 + 1) seen r obr
-      | 3 | 4 | 5 | 7 =>
-          if (code =? 7) && image_has_aux ob then twin_from n0 n1 seen r obr
-          else
-            forallb (fun e => let '(c, m, t', g', ob') := e in
-                              if (c =? code) && (m =? n)%N && (t' =? t) && negb (g' =? g) then list_eqb Z.eqb ob ob' else true) seen
-            && twin_from n0 n1 ((code, n, t, g, ob) :: seen) r obr
+      | 3 | 4 | 5 | 7 | 30 =>
+          let nob := norm_obs code ob in
+          negb (list_eqb Z.eqb ob ERR) &&
+          forallb (fun e => let '(c, m, t', g', ob') := e in
+                            if (c =? code) && (m =? n)%N && (t' =? t) && negb (g' =? g) then list_eqb Z.eqb nob ob' else true) seen
+          && twin_from n0 n1 ((code, n, t, g, nob) :: seen) r obr
       | 8 => (match ob with [] => true | _ => false end) && twin_from n0 n1 seen r obr
-      | _ => twin_from n0 n1 seen r obr
+      | 31 => reser_flags_ok ob && twin_from n0 n1 seen r obr
+      | 6 | 32 => twin_from n0 n1 seen r obr
+      | _ => false          (* op 9 and unknown codes do not belong in a twin case *)
       end
-  | _, _ => true
+  | _, _ => false
   end.
 
 Definition twin_ok (c : case) : bool :=
@@ -451,6 +536,7 @@ Definition image_ok (lgk : N) (o : ogroup) (t : Z) (ob : list Z) : bool :=
   | Some im =>
       let m := spec_mode_code lgk (og_d o) in
       (Nz (im_mode im) =? m) && (im_lgk im =? lgk)%N && (Nz (im_type im) =? t) &&
+      negb (im_ooo im) &&        (* sketches built by updates (and their round-trip copies) are in order *)
       if m =? 2 then
         let k := (2 ^ lgk)%N in
         let is4 := (im_type im =? 0)%N in
@@ -473,26 +559,31 @@ Definition image_ok (lgk : N) (o : ogroup) (t : Z) (ob : list Z) : bool :=
         (N.of_nat (length bs) =? pre + 4 * og_d o)%N
   end.
 
-Fixpoint layout_from (lgk : N) (g0 g1 : ogroup) (ops : list zop) (obs : list (list Z)) : bool :=
+Fixpoint layout_from (lgk : N) (g0 g1 : option ogroup) (ops : list zop) (obs : list (list Z)) : bool :=
   match ops, obs with
+  | [], [] => true
   | (code, a) :: r, ob :: obr =>
       if list_eqb Z.eqb ob PANIC then false else
       let g := nth 0 a 0 in
-      let o := if g =? 0 then g0 else g1 in
-      let continue (o' : ogroup) := if g =? 0 then layout_from lgk o' g1 r obr else layout_from lgk g0 o' r obr in
-      match code with
-      | 1 => continue (og_add lgk o (zN (nth 2 a 0)))
-      | 2 => continue (og_add lgk o (zN (nth 1 a 0)))
-      | 7 => image_ok lgk o (nth 1 a 0) ob && continue o
-      | 9 => true
-      | _ => continue o
+      let continue (o' : option ogroup) := if g =? 0 then layout_from lgk o' g1 r obr else layout_from lgk g0 o' r obr in
+      match (if g =? 0 then g0 else g1) with
+      | None => continue None
+      | Some o =>
+          match code with
+          | 1 => continue (Some (og_add lgk o (zN (nth 2 a 0))))
+          | 2 => continue (Some (og_add lgk o (zN (nth 1 a 0))))
+          | 7 => image_ok lgk o (nth 1 a 0) ob && continue (Some o)
+          | 8 => (match ob with [] => true | _ => false end) && continue (Some o)
+          | 9 => continue None
+          | _ => continue (Some o)
+          end
       end
-  | _, _ => true
+  | _, _ => false
   end.
 
 Definition layout_ok (c : case) : bool :=
   if is_union_case (c_cfg c) then true
-  else layout_from (zN (nth 0 (c_cfg c) 0)) og_empty og_empty (c_ops c) (c_obs c).
+  else layout_from (zN (nth 0 (c_cfg c) 0)) (Some og_empty) (Some og_empty) (c_ops c) (c_obs c).
 
 (* C13: a foreign image (written by the generator's spec encoder: every variant of the Java/C++
    writers) must be accepted, and the state dumped right after must be the one the independent
@@ -506,41 +597,93 @@ Definition sort_set (l : list Z) : list Z := fold_right sorted_nodup_insert [] l
 Definition dump_matches_image (im : himage) (ob : list Z) : bool :=
   (nth 0 ob (-1) =? Nz (im_mode im)) && (nth 1 ob (-1) =? Nz (im_lgk im)) && (nth 2 ob (-1) =? Nz (im_type im)) &&
   if (im_mode im =? 2)%N then
-    let naux := nth 9 ob 0 in
-    let vs := skipn (10 + 2 * Z.to_nat naux) ob in
-    list_eqb Z.eqb vs (map Nz (im_regs im)) &&
-    (nth 5 ob (-1) =? zbool (im_ooo im)) &&
-    (if im_ooo im then nth 6 ob (-1) =? 0 else nth 6 ob (-1) =? Nz (im_hip im)) &&
-    (nth 7 ob (-1) =? Nz (im_kxq0 im)) && (nth 8 ob (-1) =? Nz (im_kxq1 im)) &&
-    (if (im_type im =? 0)%N then (nth 3 ob (-1) =? Nz (im_cur_min im)) && (naux =? Z.of_nat (length (im_aux im))) else true)
+    match dump_regs ob with
+    | Some vs =>
+        list_eqb Z.eqb vs (map Nz (im_regs im)) &&
+        (nth 5 ob (-1) =? zbool (im_ooo im)) &&
+        (if im_ooo im then nth 6 ob (-1) =? 0 else nth 6 ob (-1) =? Nz (im_hip im)) &&
+        (nth 7 ob (-1) =? Nz (im_kxq0 im)) && (nth 8 ob (-1) =? Nz (im_kxq1 im)) &&
+        (if (im_type im =? 0)%N then (nth 3 ob (-1) =? Nz (im_cur_min im)) && (nth 9 ob (-1) =? Z.of_nat (length (im_aux im))) else true)
+    | None => false
+    end
   else
     list_eqb Z.eqb (skipn 5 ob) (sort_set (map Nz (im_coupons im))) &&
     (nth 4 ob (-1) =? Z.of_nat (length (sort_set (map Nz (im_coupons im))))).
 
-Fixpoint foreign_from (pending : option himage) (ops : list zop) (obs : list (list Z)) : bool :=
+(* the merge of the freshly loaded image into an empty union of the same lg_k (op 30) shows the
+   image's state as an Hll8 sketch: the registers, or the coupon set in the image's mode *)
+Definition merged_matches_image (im : himage) (ob : list Z) : bool :=
+  let lgk := im_lgk im in
+  (nth 1 ob (-1) =? Nz lgk) && (nth 2 ob (-1) =? 2) &&
+  if (im_mode im =? 2)%N then
+    let vs := skipn 10 ob in
+    if forallb (fun v => (v =? 0)%N) (im_regs im) then nth 0 ob (-1) =? 0      (* an empty source leaves the union empty *)
+    else (nth 0 ob (-1) =? 2) && (nth 9 ob (-1) =? 0) && list_eqb Z.eqb vs (map Nz (im_regs im))
+  else
+    (* an empty union adopts a list / set source as it is: same mode, same coupon set *)
+    let cs := sort_set (map Nz (im_coupons im)) in
+    (nth 0 ob (-1) =? Nz (im_mode im)) && list_eqb Z.eqb (skipn 5 ob) cs && (nth 4 ob (-1) =? Z.of_nat (length cs)).
+
+(* estimate and bounds of a sketch loaded from a valid image: seven numbers, the estimate not a NaN
+   and not negative (-0.0, the value of an accepted hip_accum field -0.0, counts as zero) *)
+Definition qry_sane (ob : list Z) : bool :=
+  (Z.of_nat (length ob) =? 7) && negb (is_nan_bits (nth 0 ob 0)) && (nth 0 ob 0 <=? 9223372036854775808).
+
+(* state: the image the slot (g, t) was loaded from, and whether it has been updated since.
+   strict (C13: spec-encoded images): every image the layout decoder understands must be accepted;
+   not strict (C14: mutated images): IF such an image is accepted, the sketch must be the one it encodes;
+   its own image may later be refused and its estimate after updates may be meaningless, because the
+   kxq0 / kxq1 fields of an accepted image are not compared with its registers (known finding
+   C14-hll-kxq-not-validated): a round trip answering Err is tolerated there, a panic never is *)
+Fixpoint foreign_from (strict : bool) (cur : option (Z * Z * himage)) (fresh : bool) (ops : list zop) (obs : list (list Z)) : bool :=
   match ops, obs with
+  | [], [] => true
   | (code, a) :: r, ob :: obr =>
       if list_eqb Z.eqb ob PANIC then false else
+      let here := match cur with Some (g, t, _) => (nth 0 a 0 =? g) && (nth 1 a 0 =? t) | None => false end in
       match code with
       | 9 => match hll_spec_decode (map zN (skipn 2 a)) with
-             | Some im => list_eqb Z.eqb ob [1] && foreign_from (Some im) r obr
-             | None => foreign_from None r obr       (* not a valid image under the layout: no claim *)
+             | Some im => if list_eqb Z.eqb ob [1] then foreign_from strict (Some (nth 0 a 0, nth 1 a 0, im)) true r obr
+                          else negb strict && list_eqb Z.eqb ob ERR && foreign_from strict None false r obr
+             | None => foreign_from strict None false r obr       (* not a valid image under the layout: no claim *)
              end
-      | 3 => match pending with
-             | Some im => dump_matches_image im ob && foreign_from None r obr
-             | None => foreign_from None r obr
+      | 1 | 2 => foreign_from strict cur (if match cur with Some (g, _, _) => nth 0 a 0 =? g | None => false end then false else fresh) r obr
+      | 3 => match cur with
+             | Some (_, _, im) => (if here && fresh then dump_matches_image im ob else negb (list_eqb Z.eqb ob ERR)) && foreign_from strict cur fresh r obr
+             | None => foreign_from strict cur fresh r obr
              end
-      | _ => foreign_from None r obr
+      | 30 => match cur with
+              | Some (_, _, im) => (if here && fresh then merged_matches_image im ob else negb (list_eqb Z.eqb ob ERR)) && foreign_from strict cur fresh r obr
+              | None => foreign_from strict cur fresh r obr
+              end
+      | 8 => match cur with
+             | Some _ => (if here then match ob with [] => true | _ => negb strict && list_eqb Z.eqb ob ERR end else true) && foreign_from strict cur fresh r obr
+             | None => foreign_from strict cur fresh r obr
+             end
+      | 31 => match cur with
+              | Some _ => (if here then reser_flags_ok ob || (negb strict && list_eqb Z.eqb ob ERR) else true) && foreign_from strict cur fresh r obr
+              | None => foreign_from strict cur fresh r obr
+              end
+      | 32 => match cur with
+              | Some _ => (if here && (strict || fresh) then qry_sane ob else true) && foreign_from strict cur fresh r obr
+              | None => foreign_from strict cur fresh r obr
+              end
+      | 4 | 5 | 6 | 7 => negb (list_eqb Z.eqb ob ERR) && foreign_from strict cur fresh r obr
+      | _ => false
       end
-  | _, _ => true
+  | _, _ => false
   end.
 
 Definition foreign_ok (c : case) : bool :=
-  if is_union_case (c_cfg c) then true else foreign_from None (c_ops c) (c_obs c).
+  if is_union_case (c_cfg c) then true else foreign_from true None false (c_ops c) (c_obs c).
+(* C14: a mutated image that the layout decoder still understands and the crate ACCEPTS must give the
+   sketch the image encodes (state, merge, re-serialization, sane queries) *)
+Definition accepted_ok (c : case) : bool :=
+  if is_union_case (c_cfg c) then true else foreign_from false None false (c_ops c) (c_obs c).
 
 (* C14: no operation of the case panicked or allocated out of proportion (-997) *)
 Definition no_panic (c : case) : bool :=
   forallb (fun ob => negb (list_eqb Z.eqb ob PANIC) && negb (list_eqb Z.eqb ob [-997])) (c_obs c).
 
 Definition oracles : list (Z * (case -> bool)) :=
-  [(0, prop_ok); (1, union_ok); (2, twin_ok); (3, layout_ok); (4, foreign_ok); (5, no_panic)].
+  [(0, prop_ok); (1, union_ok); (2, twin_ok); (3, layout_ok); (4, foreign_ok); (5, no_panic); (6, accepted_ok)].
